@@ -87,6 +87,83 @@ def _member_atom(e, item, container):
   return None
 
 
+def _class_test(e, var):
+  """`isinstance(var, K)` / `type(var) is K` / `var.__class__ is K` -> (K text,
+  positive); K is the unparsed class expression.  None for anything else."""
+  if isinstance(e, ast.Call) and dotted(e.func) == "isinstance" and \
+      len(e.args) == 2 and not e.keywords and src(e.args[0]) == var:
+    k = e.args[1]
+    if isinstance(k, ast.Tuple) and len(k.elts) == 1:
+      k = k.elts[0]
+    return src(k), True
+  if isinstance(e, ast.Compare) and len(e.ops) == 1 and \
+      isinstance(e.ops[0], (ast.Is, ast.IsNot, ast.Eq, ast.NotEq)):
+    l, r = e.left, e.comparators[0]
+    for x, y in ((l, r), (r, l)):
+      if src(x) in (f"type({var})", f"{var}.__class__"):
+        if src(y) == "_Composite":
+          return None        # an exact-type test against the abstract base
+        return src(y), isinstance(e.ops[0], (ast.Is, ast.Eq))
+  return None
+
+
+def _conjuncts(tests):
+  """[(atom, polarity)] implied by a list of (test, polarity) that all hold."""
+  out, todo = [], list(tests)
+  while todo:
+    t, pol = todo.pop(0)
+    if isinstance(t, ast.UnaryOp) and isinstance(t.op, ast.Not):
+      todo.insert(0, (t.operand, not pol))
+    elif isinstance(t, ast.BoolOp) and isinstance(t.op, ast.And) and pol:
+      todo = [(v, True) for v in t.values] + todo
+    elif isinstance(t, ast.BoolOp) and isinstance(t.op, ast.Or) and not pol:
+      todo = [(v, False) for v in t.values] + todo
+    else:
+      out.append((t, pol))
+  return out
+
+
+def _expr_context(mod, node):
+  """Tests that hold when `node` is evaluated inside its own statement: earlier
+  operands of enclosing `and`/`or`, IfExp tests, comprehension filters."""
+  out, cur = [], node
+  while cur in mod.parent and not isinstance(cur, ast.stmt):
+    par = mod.parent[cur]
+    if isinstance(par, ast.BoolOp) and cur in par.values:
+      idx = par.values.index(cur)
+      pol = isinstance(par.op, ast.And)
+      out = [(v, pol) for v in par.values[:idx]] + out
+    elif isinstance(par, ast.IfExp) and cur is not par.test:
+      out = [(par.test, cur is par.body)] + out
+    elif isinstance(par, (ast.ListComp, ast.SetComp, ast.GeneratorExp, ast.DictComp)):
+      gens = par.generators
+      if cur in gens:
+        k = gens.index(cur)
+        # the iterable of generator k is evaluated under the filters of 0..k-1
+        for g in gens[:k]:
+          out = [(i, True) for i in g.ifs] + out
+      else:
+        for g in gens:
+          out = [(i, True) for i in g.ifs] + out
+    elif isinstance(par, ast.comprehension) and cur in par.ifs:
+      out = [(i, True) for i in par.ifs[:par.ifs.index(cur)]] + out
+    cur = par
+  return out
+
+
+def _composite_field(mod):
+  """Name of the one dataclass field of _Composite (the member set)."""
+  fields = []
+  for s in mod.cls("_Composite").body:
+    if isinstance(s, ast.AnnAssign) and isinstance(s.target, ast.Name):
+      if "ClassVar" in src(s.annotation):
+        continue
+      fields.append(s.target.id)
+  if len(fields) != 1:
+    raise AnalysisError(f"_Composite has fields {fields}, expected the member set only")
+  return fields[0]
+
+
 def _is_conditions(mod):
   return (mod.imports.get("conditions") or "").endswith("flow.conditions")
 
@@ -152,7 +229,7 @@ def _items_loop(loops, owner, fnname):
 # ---------------------------------------------------------------------------
 # R18.1
 
-@rule("R18.1", "C18", floor=17)
+@rule("R18.1", "C18", floor=19)
 def r18_1(ctx):
   """_Composite.make / _Not.make / class constants / public bindings."""
   mod = get_module(ctx, CD)
@@ -206,6 +283,13 @@ def r18_1(ctx):
         m = _member_atom(t, n, acc)
         if m is not None:
           return neg == m
+      ct = _class_test(t, a)
+      if ct is not None:
+        klass, positive = ct
+        if klass == cls:
+          return (kind == "same") == positive
+        if klass == "_Composite":
+          return (kind in ("same", "othercomp")) == positive
       return None
     return atom
 
@@ -223,7 +307,7 @@ def r18_1(ctx):
     raise AnalysisError(f"_Composite.make returns `{s}` inside the loop")
 
   ex = {}
-  for kind in ("accept", "ignore", "other"):
+  for kind in ("accept", "ignore", "same", "othercomp", "other"):
     for neg in (True, False):
       ex[(kind, neg)] = S.executed(actions, atom_for((kind, neg)))
 
@@ -276,6 +360,38 @@ def r18_1(ctx):
   ctx.check(ok, "_Composite.make:keep", CD, eff[0][2].lineno if eff else loop.lineno,
             "any other argument must be added to the accumulator (and nothing "
             f"else); the loop executes {describe(acts)}", {"executes": describe(acts)})
+  # nested terms: a member that is itself a term of the SAME connective may be
+  # kept or spliced (associativity); a term of the other connective is a
+  # member like any other (and/or do not associate with each other)
+  members_field = _composite_field(mod)
+  for kind, construct, what in (
+      ("same", "_Composite.make:nested-same-connective",
+       f"a nested term of the same connective ({cls})"),
+      ("othercomp", "_Composite.make:nested-other-connective",
+       "a nested term of the other connective")):
+    ok, why = True, ""
+    for neg in (True, False):
+      acts = ex[(kind, neg)]
+      rets = [x for x in acts if x[0] == "return"]
+      eff = [x for x in acts if x[0] in ("add", "splice")]
+      if rets:
+        if not (neg and len(rets) == 1 and not eff and
+                ret_kind(rets[0][1], "other") == "absorbing"):
+          ok, why = False, f"the loop executes {describe(acts)}"
+        continue
+      if len(eff) == 1 and eff[0][0] == "add" and src(eff[0][1]) == a:
+        continue
+      if len(eff) == 1 and eff[0][0] == "splice" and kind == "same" and \
+          src(eff[0][1]) == f"{a}.{members_field}":
+        continue
+      ok, why = False, f"the loop executes {describe(acts)}"
+    ctx.check(ok, construct, CD, loop.lineno,
+              f"{what} must be kept as a member"
+              + (f" or contribute exactly its members ({a}.{members_field})"
+                 if kind == "same" else
+                 "; splicing its members into this connective changes the "
+                 "meaning (x and (a or b) is not x and a and b)")
+              + f": {why}", summary(kind))
   kind = S.empty_kind(init)
   if kind is None:
     raise AnalysisError(f"_Composite.make: accumulator initialised with `{src(init)}`")
@@ -369,6 +485,73 @@ def r18_1(ctx):
     ctx.check(ok, f"binding:{name}", CD, v.lineno,
               f"conditions.{name} is bound to `{src(v)}`, expected {cname}.make",
               {"bound_to": src(v)})
+
+
+# ---------------------------------------------------------------------------
+# R18.8
+
+@rule("R18.8", "C18", floor=1)
+def r18_8(ctx):
+  """make unpacks the members of an argument only if it is a term of `cls`."""
+  from sa import flow
+  mod = get_module(ctx, CD)
+  fn = mod.func("_Composite.make")
+  ps = S.params_of(fn)
+  if len(ps) != 1:
+    raise AnalysisError("_Composite.make signature is not (cls, *args)")
+  cls = ps[0]
+  field = _composite_field(mod)
+  for sub in ("_Or", "_And"):
+    if "make" in mod.methods(sub) or mod.methods(sub).get("__init__"):
+      raise AnalysisError(f"{sub} overrides make/__init__")
+  reads = []
+  for n in ast.walk(fn):
+    if isinstance(n, ast.Attribute) and n.attr == field and \
+        isinstance(n.ctx, ast.Load) and src(n.value) not in (cls, "self"):
+      if mod.enclosing_function(n) is not fn:
+        raise AnalysisError(
+            f"_Composite.make reads .{field} inside a nested function")
+      reads.append(n)
+  reads.sort(key=lambda n: (n.lineno, n.col_offset))
+  sites = []
+  for n in reads:
+    x = src(n.value)
+    st = mod.enclosing_stmt(n)
+    holder = st
+    # a read in the header of a compound statement is not guarded by that header
+    tests = list(flow.guards(mod.parent, holder)) + _expr_context(mod, n)
+    classes = []
+    for t, pol in _conjuncts(tests):
+      ct = _class_test(t, x)
+      if ct is not None and ct[1] == pol:
+        classes.append(ct[0])
+    # the tested name must still denote the tested object at the read
+    test_lines = [mod.enclosing_stmt(t).lineno for t, _ in tests
+                  if _class_test(t, x) is not None or any(
+                      _class_test(c, x) is not None for c, _ in _conjuncts([(t, True)]))]
+    for m in ast.walk(fn):
+      if isinstance(m, ast.Name) and isinstance(m.ctx, ast.Store) and m.id == x \
+          and any(tl < m.lineno <= n.lineno for tl in test_lines):
+        raise AnalysisError(
+            f"_Composite.make: {x} is rebound between its class test and the "
+            f"read of {x}.{field}")
+    facts = {"reads": src(n), "class_tests": classes, "statement": src(st)[:80]}
+    sites.append(src(n))
+    if cls in classes:
+      ctx.ok(f"_Composite.make:unpacks-same-connective-only:{x}", CD, n.lineno, facts)
+    elif classes:
+      ctx.bad(f"_Composite.make:unpacks-same-connective-only:{x}", CD, n.lineno,
+              f"`{src(n)}` unpacks the members of {x} under the class test "
+              f"{classes}, which does not establish that {x} is a term of the "
+              f"connective being built (`{cls}`): an _Or nested in And(...) (or "
+              "an _And in Or(...)) would be spliced into the outer connective, "
+              "and x and (a or b) is not x and a and b", facts)
+    else:
+      raise AnalysisError(
+          f"_Composite.make reads `{src(n)}` without a recognisable class test "
+          f"on {x}: cannot tell which connective is being unpacked")
+  ctx.ok("_Composite.make:member-unpacking-sites", CD, fn.lineno,
+         {"sites": sites, "member_field": field})
 
 
 # ---------------------------------------------------------------------------
@@ -1216,6 +1399,56 @@ VARIANTS = [
              "    conditions = {arg for arg in args if arg is not cls._IGNORE}\n"
              "    if any(Not(arg) in conditions for arg in conditions):\n"
              "      return cls._ACCEPT\n")},
+    # R18.8 / R18.1 nested terms
+    {"name": "seeded-C18-m1", "rule": "R18.8", "patch": "seeded/C18-m1/patch.diff",
+     "expect": "fire"},
+    {"name": "make-flattens-any-composite", "rule": "R18.8", "file": CD, "expect": "fire",
+     "old": "    for arg in args:\n      if arg is cls._IGNORE:\n",
+     "new": ("    for arg in args:\n"
+             "      if isinstance(arg, _Composite):\n"
+             "        conditions.update(arg.conditions)\n"
+             "        continue\n"
+             "      if arg is cls._IGNORE:\n")},
+    {"name": "make-flattens-any-composite-R18.1", "rule": "R18.1", "file": CD, "expect": "fire",
+     "old": "    for arg in args:\n      if arg is cls._IGNORE:\n",
+     "new": ("    for arg in args:\n"
+             "      if isinstance(arg, _Composite):\n"
+             "        conditions.update(arg.conditions)\n"
+             "        continue\n"
+             "      if arg is cls._IGNORE:\n")},
+    {"name": "make-pre-flattens-both-connectives", "rule": "R18.8", "file": CD, "expect": "fire",
+     "old": "    conditions = set()\n    for arg in args:\n",
+     "new": ("    args = [m for arg in args for m in (\n"
+             "        arg.conditions if isinstance(arg, (_And, _Or)) else (arg,))]\n"
+             "    conditions = set()\n    for arg in args:\n")},
+    {"name": "make-flattens-unless-atom", "rule": "R18.8", "file": CD, "expect": "fire",
+     "old": "      conditions.add(arg)\n    if not conditions:",
+     "new": ("      if not isinstance(arg, _Composite):\n"
+             "        conditions.add(arg)\n"
+             "        continue\n"
+             "      conditions |= arg.conditions\n    if not conditions:")},
+    {"name": "twin-make-flattens-same-connective", "rule": "R18.8", "file": CD,
+     "expect": "silent",
+     "old": "    for arg in args:\n      if arg is cls._IGNORE:\n",
+     "new": ("    for arg in args:\n"
+             "      if isinstance(arg, cls):\n"
+             "        conditions.update(arg.conditions)\n"
+             "        continue\n"
+             "      if arg is cls._IGNORE:\n")},
+    {"name": "twin-make-flattens-exact-type", "rule": "R18.8", "file": CD,
+     "expect": "silent",
+     "old": "      conditions.add(arg)\n    if not conditions:",
+     "new": ("      if isinstance(arg, _Composite) and type(arg) is cls:\n"
+             "        conditions |= arg.conditions\n"
+             "      else:\n"
+             "        conditions.add(arg)\n    if not conditions:")},
+    {"name": "twin-make-tests-composite-without-unpacking", "rule": "R18.8", "file": CD,
+     "expect": "silent",
+     "old": "      conditions.add(arg)\n    if not conditions:",
+     "new": ("      if isinstance(arg, _Composite):\n"
+             "        conditions.add(arg)\n"
+             "        continue\n"
+             "      conditions.add(arg)\n    if not conditions:")},
     # R18.2
     {"name": "Variable.with_condition-uses-Or", "rule": "R18.2", "file": VR, "expect": "fire",
      "old": "new_condition = conditions.And(b.condition, condition)",
